@@ -498,8 +498,14 @@ impl<'a> Searcher<'a> {
                     });
                 }
 
+                let mut first = true;
                 results.iter().for_each(|items| {
                     let mut buf = WritableBuffer::new();
+                    if first {
+                        first = false;
+                    } else {
+                        let _ = self.results_writer.write_row_separator(&mut buf);
+                    }
                     let _ = self.results_writer.write_row(&mut buf, items.to_owned());
                     let _ = write!(std::io::stdout(), "{}", String::from(buf));
                 });
